@@ -14,6 +14,9 @@ CONSTANTS
   SNames = {}
   Alpha = {}
   ParamSites = {}
+  XUses = {}
+  XParams = {}
+  XVals = {}
   NumParams = {}
   StrParams = {}
   SupVals = {}
